@@ -287,7 +287,7 @@ macro_rules! on_variant {
     };
 }
 
-const SPECIAL: [&str; 26] = [
+const SPECIAL: [&str; 27] = [
     "Dijkstra::next",
     "DijkstraDist::next",
     "DijkstraDist::distances",
@@ -314,7 +314,146 @@ const SPECIAL: [&str; 26] = [
     "AdjacencyListWeighted::add_arc_weighted/remove_arc",
     "Xoshiro256StarStar",
     "AdjacencyMap is_semicomplete/is_tournament/converse/complement (non-contiguous)",
+    "traversals and From<iterator> fed by an unfriendly iterator (passes differ, size_hint lies)",
 ];
+
+/// A legal but unfriendly iterator. All clones share a pass counter: the
+/// k-th pass that is started (by the original or by any clone) yields the
+/// k-th script line, so validating a clone says nothing about what the
+/// iterator itself will yield; and `size_hint` returns whatever it was told
+/// to. Both are allowed by the Iterator contract ("an incorrect size_hint
+/// must not lead to memory-safety violations"), so the safe API must answer
+/// with a panic or a valid value, never with an out-of-bounds access.
+#[derive(Clone)]
+struct Unfriendly<T: Clone> {
+    script: std::rc::Rc<Vec<Vec<T>>>,
+    started: std::rc::Rc<std::cell::Cell<usize>>,
+    mine: Option<usize>,
+    pos: usize,
+    hint: (usize, Option<usize>),
+}
+
+impl<T: Clone> Unfriendly<T> {
+    fn new(script: Vec<Vec<T>>, hint: (usize, Option<usize>)) -> Self {
+        Unfriendly { script: std::rc::Rc::new(script), started: std::rc::Rc::new(std::cell::Cell::new(0)), mine: None, pos: 0, hint }
+    }
+}
+
+impl<T: Clone> Iterator for Unfriendly<T> {
+    type Item = T;
+    fn next(&mut self) -> Option<T> {
+        let started = &self.started;
+        let line = *self.mine.get_or_insert_with(|| {
+            let k = started.get();
+            started.set(k + 1);
+            k
+        });
+        let l = &self.script[line.min(self.script.len() - 1)];
+        let x = l.get(self.pos).cloned();
+        self.pos += 1;
+        x
+    }
+    fn size_hint(&self) -> (usize, Option<usize>) {
+        self.hint
+    }
+}
+
+fn unfriendly_probe(r: &mut Rng, m: &Model) -> String {
+    let n = m.n();
+    let hint = *r.pick(&[(0usize, None), (0, Some(0)), (1, Some(1)), (n, Some(n)), (n * n + 7, Some(n * n + 7)), (4096, None), (3, Some(1))]);
+    let good: Vec<usize> = (0..r.range(1, 3)).map(|_| r.below(n)).collect();
+    let far = *r.pick(&[n, n + 1, n + 63, 2 * n + 1, 1 << 20, usize::MAX]);
+    let mut bad = good.clone();
+    let at = r.below(bad.len() + 1);
+    bad.insert(at, far);
+    // which pass gets the out-of-range id: the first, the second, the third, none
+    let script: Vec<Vec<usize>> = match r.below(5) {
+        0 => vec![good.clone(), bad.clone()],
+        1 => vec![bad.clone(), good.clone()],
+        2 => vec![good.clone(), good.clone(), bad.clone()],
+        3 => vec![good.clone(), vec![], bad.clone()],
+        _ => vec![good.clone()],
+    };
+    let t = r.below(12);
+    let v = r.below(4);
+    let tgt = r.below(n + 1);
+    macro_rules! trav {
+        ($d:expr) => {{
+            let d = $d;
+            let mk = || Unfriendly::new(script.clone(), hint);
+            let _ = catch(|| match t {
+                0 => drop(poll(Bfs::new(&d, mk()))),
+                1 => drop(poll(BfsDist::new(&d, mk()))),
+                2 => drop(BfsDist::new(&d, mk()).distances()),
+                3 => drop(poll(BfsPred::new(&d, mk()))),
+                4 => drop(BfsPred::new(&d, mk()).predecessors()),
+                5 => drop(BfsPred::new(&d, mk()).shortest_path(|x| x == tgt)),
+                6 => drop(BfsPred::new(&d, mk()).cycles()),
+                7 => drop(poll(Dfs::new(&d, mk()))),
+                8 => drop(poll(DfsDist::new(&d, mk()))),
+                9 => drop(poll(DfsPred::new(&d, mk()))),
+                10 => drop(DfsPred::new(&d, mk()).predecessors()),
+                _ => {
+                    // a traversal cloned before and after its first step
+                    let mut a = Bfs::new(&d, mk());
+                    let b = a.clone();
+                    let _ = a.next();
+                    let c = a.clone();
+                    drop((poll(a), poll(b), poll(c)));
+                }
+            });
+        }};
+    }
+    match v {
+        0 => trav!(AdjacencyList::build(m)),
+        1 => trav!(AdjacencyMap::build(m)),
+        2 => trav!(AdjacencyMatrix::build(m)),
+        _ => trav!(EdgeList::build(m)),
+    }
+    // weighted traversals
+    {
+        let d = build_w_usize(m);
+        let mk = || Unfriendly::new(script.clone(), hint);
+        let _ = catch(|| match t % 6 {
+            0 => drop(poll(Dijkstra::new(&d, mk()))),
+            1 => drop(poll(DijkstraDist::new(&d, mk()))),
+            2 => drop(DijkstraDist::new(&d, mk()).distances()),
+            3 => drop(poll(DijkstraPred::new(&d, mk()))),
+            4 => drop(DijkstraPred::new(&d, mk()).predecessors()),
+            _ => drop(DijkstraPred::new(&d, mk()).shortest_path(|x| x == tgt)),
+        });
+    }
+    // constructors from iterators: rows / weight maps / arcs
+    let rows: Vec<BTreeSet<usize>> = (0..n).map(|u| m.out(u).into_iter().collect()).collect();
+    let mut rows_bad = rows.clone();
+    let _ = rows_bad[r.below(n)].insert(far);
+    let rscript = match r.below(3) {
+        0 => vec![rows.clone(), rows_bad.clone()],
+        1 => vec![rows.clone(), vec![]],
+        _ => vec![rows.clone(), rows[..n / 2].to_vec(), rows_bad.clone()],
+    };
+    let _ = catch(|| AdjacencyList::from(Unfriendly::new(rscript.clone(), hint)).order());
+    let _ = catch(|| AdjacencyMap::from(Unfriendly::new(rscript.clone(), hint)).order());
+    let wrows = |rs: &Vec<BTreeSet<usize>>| -> Vec<BTreeMap<usize, usize>> { rs.iter().map(|s| s.iter().map(|&x| (x, x + 1)).collect()).collect() };
+    let wscript: Vec<Vec<BTreeMap<usize, usize>>> = rscript.iter().map(wrows).collect();
+    let _ = catch(|| AdjacencyListWeighted::<usize>::from(Unfriendly::new(wscript.clone(), hint)).order());
+    let arcs = m.arc_list();
+    let mut arcs_bad = arcs.clone();
+    arcs_bad.push((r.below(n), far));
+    let ascript = match r.below(3) {
+        0 => vec![arcs.clone(), arcs_bad.clone()],
+        1 => vec![arcs_bad.clone(), arcs.clone()],
+        _ => vec![arcs.clone(), vec![], arcs_bad.clone()],
+    };
+    if far < (1 << 21) {
+        // (an id of 2^20 makes a legitimate 2^40-bit matrix request; keep the far id small for the matrix)
+        let _ = catch(|| EdgeList::from(Unfriendly::new(ascript.clone(), hint)).order());
+        if far <= 2 * n + 1 {
+            let _ = catch(|| AdjacencyMatrix::from(Unfriendly::new(ascript.clone(), hint)).order());
+        }
+    }
+    format!("hint {hint:?} source script {script:?} traversal {t} on {} D: {}", ["AdjacencyList", "AdjacencyMap", "AdjacencyMatrix", "EdgeList"][v], m.describe())
+}
 
 pub fn n_probes() -> usize {
     (TRAV.len() + QUERY.len() + 1) * VARIANTS.len() + ALGEBRA.len() * 5 + SPECIAL.len()
@@ -710,7 +849,7 @@ fn probe(id: usize, r: &mut Rng, max: usize) -> String {
             });
             extra = format!("seed={s}");
         }
-        _ => {
+        25 => {
             let d = build_map_any(&sparse);
             let _ = catch(|| d.is_semicomplete());
             let _ = catch(|| d.is_tournament());
@@ -718,6 +857,9 @@ fn probe(id: usize, r: &mut Rng, max: usize) -> String {
             let _ = catch(|| d.complement().order());
             let _ = catch(|| d.is_complete());
             extra = format!("D: {}", sparse.describe());
+        }
+        _ => {
+            extra = unfriendly_probe(r, &m0);
         }
     }
     format!("{name} {extra}")
